@@ -321,7 +321,7 @@ class Program:
             from .normalize import propagate_pure_hoists
 
             if not os.environ.get("SV_NO_HOISTS"):
-                propagate_pure_hoists(tree)
+                propagate_pure_hoists(tree, modname)
             for _round in range(3):
                 n_pc = propagate_param_copies(tree)
                 n_cc = coalesce_copies(tree)
